@@ -38,7 +38,7 @@ def eval_in_state(sx: SX, cls: str, expr: str, state: State = None, module=None)
     return rs
 
 
-def truth_table(paths, spec_dnf, ctx=None):
+def truth_table(paths, spec_dnf, ctx=None, excluded_dnf=()):
     """Finite-domain comparison of a boolean function given as code paths [(guards, bool)] with a
     spec given as a DNF of guard conjunctions.  Boolean atoms = distinct non-comparison guard keys;
     every comparison guard `d rel 0` is read as a constraint on the sign of its canonical difference,
@@ -64,6 +64,7 @@ def truth_table(paths, spec_dnf, ctx=None):
 
     cpaths = [([var_of(g) for g in gs], v) for gs, v in paths]
     cspec = [[var_of(g) for g in conj] for conj in spec_dnf]
+    cexcl = [[var_of(g) for g in conj] for conj in excluded_dnf]      # states an invariant established elsewhere rules out
     nvars = len(bools) + len(diffs)
     if len(bools) + 2 * len(diffs) > 16:
         return None, bools + [repr(d) for d in diffs]
@@ -82,6 +83,8 @@ def truth_table(paths, spec_dnf, ctx=None):
             hits = [v for cs, v in cpaths if sat(cs, ba, sa)]
             if not hits:
                 continue        # combination no code path covers (e.g. excluded by an earlier raise)
+            if any(sat(conj, ba, sa) for conj in cexcl):
+                continue
             code = hits[0]
             assign = {bools[i]: ba[i] for i in range(len(bools))}
             assign.update({('sign', repr(diffs[i])[:80]): sa[i] for i in range(len(diffs))})
